@@ -9,7 +9,17 @@ def build(repo, tier, seed):
     v7, u7 = templated_keys_proof.option_contract(repo)
     vcs = vcs + v6 + v7
     und = und + u6 + u7
-    b = classlaws.bundle(repo, tier, seed, ("L1", "L2"), classes=classlaws.READY + ["Dataset"], extra_vcs=vcs, extra_sanity=sanity)
+    b = classlaws.bundle(repo, tier, seed, ("L1", "L2"), classes=classlaws.READY + ["Dataset", "_DatasetClassMeta"], extra_vcs=vcs, extra_sanity=sanity)
+    # dataset classes report the union of their members' keys (every member the constructor evaluates): witness by the bounded dataset-class search
+
+    def witness(group, names, seed, inner=b["witness"]):
+        if group.startswith(("_DatasetClassMeta", "undecided:_DatasetClassMeta")):
+            from harness import datasetclass_search
+            w, _ = datasetclass_search.search(seed)
+            if w:
+                return w
+        return inner(group, names, seed)
+    b["witness"] = witness
     b["undecided"] += und
     b["functions"].append({"name": "labrea.types:Cacheable.fingerprint", "sha256_16": repo.sha(repo.module("types"), repo.module("types").classes["Cacheable"].methods["fingerprint"])})
     b["assumptions"].append("hash-seed independence: the engine gives iteration over a key set an arbitrary order (quantified), the only ordered consumer is sorted(); "
